@@ -1,0 +1,33 @@
+//go:build verif
+
+// Contracts for gzv (contract-based deductive verification, /verif). Comment-only file.
+package token
+
+// C18 JWT gate: a token is accepted only if the jwt library verified it under the current secret or, when one is
+// configured, the previous secret. tokSecret[tok] = the HMAC key the library verified tok with (trusted library contract:
+// ParseFromRequest returns err == nil only for a token whose signature verifies under the key function's key and whose time claims are valid).
+//@ ghost var tokSecret map[any]string
+//@ func (tp *TokenParser) doParseToken
+//@   trusted
+//@   results tok, err
+//@   ensures implies(err == nil, tok != nil && tokSecret[tok] == secret)
+//@   modifies nothing
+//@   allocates
+//@ func (tp *TokenParser) doParseToken closure 0
+//@   property C18
+//@   results key, err
+//@   ensures err == nil
+//@ func (tp *TokenParser) loadCount
+//@   trusted
+//@   modifies nothing
+//@ func (tp *TokenParser) incrementCount
+//@   trusted
+//@   modifies nothing
+
+//@ func (tp *TokenParser) ParseToken
+//@   property C18
+//@   results tok, err
+//@   ensures implies(err == nil, tok != nil && (tokSecret[tok] == secret || (len(prevSecret) > 0 && tokSecret[tok] == prevSecret)))
+//@   ensures implies(err != nil, tok == nil)
+//@   modifies nothing
+//@   allocates
